@@ -101,7 +101,8 @@ WAIT_VARS = [("stabilize.handlers.complete_stage.handler", "CompleteStageHandler
 CONSUME_MODE = {"CompleteStageHandler": "ret", "JumpToStageHandler": "ret"}      # full condition set too large: early-return tests only
 CONSUME_OK["StartStageHandler"] = [      # examined in the thorough tier only (enumeration ~1.5 min)
     ({"fresh_stage is None"}, "the stage disappeared between two reads: nothing to start"),
-    ({"readiness.phase == PredicatePhase.READY", "!stage.status == WorkflowStatus.RUNNING"}, MOOT + " (neither NOT_STARTED nor RUNNING)"),
+    ({"readiness.phase == PredicatePhase.READY", "!stage.status == WorkflowStatus.RUNNING"}, MOOT + " (completed: its own CompleteStage pushed the continuation; the halted sub-case of this branch pushes CompleteWorkflow, which C05.R15 checks - "
+     "the `is_halt` test is not an early-return test and therefore not a recorded fact of this enumeration)"),
     ({"!readiness.phase == PredicatePhase.READY", "!readiness.phase == PredicatePhase.SKIP"}, "NOT_READY with an upstream still active: that upstream's completion pushes StartStage again (C05.R2), polling stops by design"),
     ({"stage.status == WorkflowStatus.RUNNING", "has_tasks"}, "duplicate StartStage for a stage that is already planned: its tasks carry it on"),
     ({"stage.status == WorkflowStatus.RUNNING", "has_synthetic"}, "duplicate StartStage for a stage whose synthetic children are planned: they carry it on"),
@@ -212,6 +213,7 @@ def run(ctx, rep) -> None:
     _r12_after_stage_gate(ctx, rep)
     _r13_redirect(ctx, rep)
     _r14_error_branch_marks_failed(ctx, rep)
+    _r15_late_start_of_halted_stage(ctx, rep)
     _r6(ctx, rep)
 
     # ---- R2 ----------------------------------------------------------------------------------------
@@ -861,3 +863,26 @@ def _r14_error_branch_marks_failed(ctx, rep) -> None:
                           f"`{var}` is stored as it was read (RUNNING after the claim, tasks NOT_STARTED) and CompleteStage is pushed: CompleteStage computes RUNNING from the tasks, treats the message as 'children still in flight' and drops it - "
                           "the stage stays RUNNING with an empty queue (a StageDefinitionBuilder that raises during planning)", f.file, stores[0].lineno, disc=f"error-branch-fails:{f.qualname}")
     rep.floor("except-branches of start_stage that push CompleteStage", n, 1)
+
+
+# ---- R15: a StartStage that finds its stage halted hands the workflow to CompleteWorkflow ----------------------------------------------
+def _r15_late_start_of_halted_stage(ctx, rep) -> None:
+    """A stage can be halted before it starts (CancelRegion, an external CancelStage) - CancelStage pushes nothing. The upstream
+    that finishes later pushes StartStage for it and, if it has no other downstream, nothing else. StartStage must therefore not
+    simply ignore a halted stage: it is the last message of the chain and has to push CompleteWorkflow."""
+    from ..dom import conditions_at
+    prog = ctx.prog
+    rep.rule("C05.R15", "_start_if_ready: on the branch taken for a stage that is neither NOT_STARTED nor RUNNING, CompleteWorkflow is pushed under `stage.status.is_halt` before the message is dropped")
+    sir = prog.func("stabilize.handlers.start_stage.handler", "StartStageHandler._start_if_ready").node
+    pushes = [c for c in ast.walk(sir) if isinstance(c, ast.Call) and isinstance(c.func, ast.Name) and c.func.id == "CompleteWorkflow"]
+    ok = False
+    for c in pushes:
+        cs = conditions_at(sir, c)
+        if ("stage.status == WorkflowStatus.NOT_STARTED", False) in cs and ("stage.status == WorkflowStatus.RUNNING", False) in cs and ("stage.status.is_halt", True) in cs:
+            ok = True
+    ignores = [r for r in ast.walk(sir) if isinstance(r, ast.Return) and r.value is None and ("stage.status == WorkflowStatus.NOT_STARTED", False) in conditions_at(sir, r) and ("stage.status == WorkflowStatus.RUNNING", False) in conditions_at(sir, r)]
+    if not ignores:
+        raise AnalysisError("_start_if_ready: the 'already completed - ignore' return was not found")
+    rep.check(ok, "C05.R15", "a late StartStage for a halted stage pushes CompleteWorkflow", "CompleteWorkflow under `stage.status.is_halt` on the already-completed branch" if ok else
+              "the already-completed branch only returns: a stage canceled before it started (CancelRegion / CancelStage push nothing) swallows the StartStage of the upstream that finishes later - "
+              "if that was the upstream's only downstream, nothing finalises the workflow", "src/stabilize/handlers/start_stage/handler.py", ignores[0].lineno, disc="late-start-halted")
